@@ -24,7 +24,7 @@ import (
 func init() {
 	Registry["C14"] = &Check{
 		Scenarios: c14Scenarios,
-		Rule: "events: CloseNotify requested {inside the first handler, by a free application thread at every possible instant (in particular while the reader is parked in Read), twice (handler + thread), after termination}; two messages delivered in three fragments (one fragment boundary inside the first header); termination by {peer EOF, transport read error, a read error that reports itself as temporary (once), EOF / read error returned by the same Read that delivers the last message (n > 0 with err != nil), undecodable header followed by trailing bytes, local Close from a free thread at every instant, a handler panic on the second message (recovered by the serve loop)}; an observer thread records the instant the channel closes. The requesting / closing / observing threads and the peer are environment threads, so every ordering of their steps against the library's steps is explored even at preemption bound 0; library preemption bound 2 (quick) / unbounded (thorough). The same request modes {handler, thread, after} x terminations {EOF, undecodable input, local Close} on a multistream (in-memory SCTP) connection, where CloseNotify installs a read-error handler. Also a handler (of a message read through the switched reader) that waits on the channel while the peer ends the connection {EOF, reset}: the notifier is then the only goroutine able to observe the end. Also a local Close while an application goroutine's Write is stuck inside the transport (the peer has stopped reading). Also a connection accepted by a Server with ReadTimeout 2 s that idles into its read deadline (virtual clock), CloseNotify requested {in the handler, by a thread, not at all}. Also sm.Client with the watchdog enabled followed by a quiet peer close, preceded by 0, 1, 2 or 3 unsolicited success DWAs (in one segment or one segment each) (virtual time, horizon 12 s).",
+		Rule: "events: CloseNotify requested {inside the first handler, by a free application thread at every possible instant (in particular while the reader is parked in Read), twice (handler + thread), after termination}; two messages delivered in three fragments (one fragment boundary inside the first header); termination by {peer EOF, transport read error, a read error that reports itself as temporary (once), EOF / read error returned by the same Read that delivers the last message (n > 0 with err != nil), undecodable header followed by trailing bytes, local Close from a free thread at every instant, a handler panic on the second message (recovered by the serve loop)}; an observer thread records the instant the channel closes. The requesting / closing / observing threads and the peer are environment threads, so every ordering of their steps against the library's steps is explored even at preemption bound 0; library preemption bound 2 (quick) / unbounded (thorough). The same request modes {handler, thread, after} x terminations {EOF, undecodable input, local Close, EOF inside a header, EOF / reset inside a body} on a multistream (in-memory SCTP) connection, where CloseNotify installs a read-error handler. Also a handler (of a message read through the switched reader) that waits on the channel while the peer ends the connection {EOF, reset}: the notifier is then the only goroutine able to observe the end. Also a local Close while an application goroutine's Write is stuck inside the transport (the peer has stopped reading). Also a connection accepted by a Server with ReadTimeout 2 s that idles into its read deadline (virtual clock), CloseNotify requested {in the handler, by a thread, not at all}. Also sm.Client with the watchdog enabled followed by a quiet peer close, preceded by 0, 1, 2 or 3 unsolicited success DWAs (in one segment or one segment each) (virtual time, horizon 12 s).",
 		Assume: []string{"data-race freedom between visible operations (audited separately with -race)", "io.Pipe is modelled by vsched.Pipe (Write blocks until the data is consumed or either end is closed)"},
 		QuickBudget: 100, ThoroughBudget: 1500,
 	}
@@ -71,7 +71,7 @@ func c14Scenarios(tier string) []*Scenario {
 		}
 	}
 	for _, req := range []string{"handler", "thread", "after"} {
-		for _, term := range []string{"eof", "garbage", "localclose"} {
+		for _, term := range []string{"eof", "garbage", "localclose", "cut-header", "cut-body", "rerr-body"} {
 			out = append(out, c14Multi(req, term, bound))
 		}
 	}
@@ -415,6 +415,20 @@ func c14Multi(req, term string, bound int) *Scenario {
 			vs.Yield("env")
 			be.Deliver(3, m1[10:])
 			vs.Yield("env")
+			if strings.HasPrefix(term, "cut") || term == "rerr-body" {
+				// the association goes away in the middle of the second message: after 10 bytes of
+				// its header, or after the header and 8 bytes of the body
+				k := map[string]int{"cut-header": 10, "cut-body": 28, "rerr-body": 28}[term]
+				be.Deliver(5, m2[:k])
+				vs.Yield("env")
+				st.term = true
+				if term == "rerr-body" {
+					be.PeerErr(errors.New("connection reset by peer"))
+				} else {
+					be.PeerEOF()
+				}
+				return
+			}
 			be.Deliver(5, m2)
 			vs.Yield("env")
 			switch term {
@@ -449,8 +463,15 @@ func c14Multi(req, term string, bound int) *Scenario {
 				v = append(v, fmt.Sprintf("multistream connection terminated (%s) but CloseNotify channel %d (requested: %s) was never closed", term, i, req))
 			}
 		}
-		if term != "localclose" && fmt.Sprint(st.handled) != "[1 2]" {
-			v = append(v, fmt.Sprintf("handlers saw messages %v, the peer delivered [1 2]", st.handled))
+		wantHandled := "[1 2]"
+		if strings.HasPrefix(term, "cut") || term == "rerr-body" {
+			wantHandled = "[1]" // the second message never arrived completely
+		}
+		if term != "localclose" && fmt.Sprint(st.handled) != wantHandled {
+			v = append(v, fmt.Sprintf("handlers saw messages %v, the peer delivered %s completely", st.handled, wantHandled))
+		}
+		if st.be.DeadReads > 8 {
+			v = append(v, fmt.Sprintf("the reader keeps polling the association after it ended (%d reads answered with the terminal condition)", st.be.DeadReads))
 		}
 		if b := s.BlockedLib(); len(b) > 0 && st.be.Closed {
 			v = append(v, "library goroutines still alive after the association terminated: "+strings.Join(b, ", "))
